@@ -7,7 +7,8 @@
    each statement ([parse (print d) = Some d]; strict prefixes of a printed document do
    not parse); [codec_hypotheses_satisfiable] shows they can be met. *)
 From Coq Require Import List NArith Arith Bool Lia.
-From AHK Require Import Lib.Res Lib.ByteStr Model.Persist Proofs.Persist Proofs.PersistEx.
+From AHK Require Import Lib.Res Lib.ByteStr Model.Persist Proofs.Persist Proofs.PersistEx
+  Model.PersistRec Proofs.PersistRec.
 Import ListNotations.
 
 (* write-temp-then-rename (temp file in the same directory, fsync, close, os.replace):
@@ -42,6 +43,16 @@ Theorem save_crash_safe_fresh :
       crash_view (crash_after n (save_atomic h t f cs) st) st' ->
       load data parse st' f = Missing \/ load data parse st' f = Loaded D'.
 Proof. exact atomic_crash_safe_fresh. Qed.
+
+(* the uninterrupted save installs the new data, whatever was there before *)
+Theorem save_complete :
+  forall (data : Type) (print : data -> bytes) (parse : bytes -> option data),
+    (forall d, parse (print d) = Some d) ->
+    forall st f t h cs D' n st',
+      t <> f -> concat cs = print D' -> length (save_atomic h t f cs) <= n ->
+      crash_view (crash_after n (save_atomic h t f cs) st) st' ->
+      load data parse st' f = Loaded D'.
+Proof. exact atomic_complete. Qed.
 
 (* any operations that do not name f leave its data alone at every crash point *)
 Theorem save_untouched_safe :
@@ -87,12 +98,7 @@ Theorem cache_prefix_safe :
                    cache_load_bytes data parse cache empty get_pairings (Some p) = Ok empty) /\
       (forall bs, parse bs = None -> cache_load_bytes data parse cache empty get_pairings (Some bs) = Ok empty) /\
       cache_load_bytes data parse cache empty get_pairings None = Ok empty.
-Proof.
-  intros data print parse Hp cache empty wrap gp. split; [|split].
-  - exact (cache_load_prefix data print parse Hp cache empty wrap gp).
-  - exact (cache_load_unparsable data parse cache empty gp).
-  - exact (cache_load_missing data parse cache empty gp).
-Qed.
+Proof. exact cache_prefix_safe_all. Qed.
 
 (* the cache is saved in place; interrupted anywhere it loads as the old, the new or the
    empty cache - never an exception *)
@@ -134,6 +140,68 @@ Example c20_inplace_all_points :
   = [Loaded D0; Broken; Broken; Broken; Loaded D1; Loaded D1].
 Proof. exact inplace_all_points. Qed.
 
+(* ------------------------------------------------------------------ record level *)
+(* entity map: Accessories.from_list (serialize db) gives back db on every listed field
+   (types, ids, permissions, formats, values, ranges, valid values, handles, event flags, links);
+   [forget_acc] drops description/unit, which the loader re-derives from its per-type table.
+   [norm] is normalize_uuid, [tbl] the per-type defaults; no hypothesis on either beyond wf. *)
+Theorem entity_roundtrip :
+  forall (norm : bytes -> option bytes) (tbl : bytes -> ctab) (db : list acc),
+    Forall (wf_acc norm tbl) db ->
+    rmap (map forget_acc) (accs_from norm tbl (accs_to db)) = Ok (map forget_acc db).
+Proof. exact accs_roundtrip. Qed.
+
+(* the same with the executable well-formedness check the correspondence driver evaluates on the
+   objects built from every generated entity map *)
+Theorem entity_roundtrip_checked :
+  forall (norm : bytes -> option bytes) (tbl : bytes -> ctab) (db : list acc),
+    forallb (wf_accb norm tbl) db = true ->
+    rmap (map forget_acc) (accs_from norm tbl (accs_to db)) = Ok (map forget_acc db).
+Proof. exact accs_roundtrip_checked. Qed.
+
+Theorem characteristic_roundtrip :
+  forall (norm : bytes -> option bytes) (tbl : bytes -> ctab) (c : chr),
+    wf_chr norm tbl c ->
+    rmap forget_chr (chr_from_dict norm tbl (chr_to_dict c)) = Ok (forget_chr c).
+Proof. exact chr_roundtrip. Qed.
+
+(* cache entry: configuration number, state number, broadcast key and the database survive
+   _update_accessories_state_cache -> _load_accessories_from_cache *)
+Theorem cache_entry_roundtrip :
+  forall (norm : bytes -> option bytes) (tbl : bytes -> ctab) (s : astate),
+    wf_state norm tbl s ->
+    rmap forget_state (entry_load norm tbl (entry_save s)) = Ok (forget_state s).
+Proof. exact entry_roundtrip. Qed.
+
+Theorem broadcast_key_roundtrip : forall k, all_bytes k = true -> hex_dec (hex_enc k) = Some k.
+Proof. exact hex_roundtrip. Qed.
+
+(* pairing records of the three transports (any further fields, any alias bytes) *)
+Theorem pairing_roundtrip :
+  forall l : list (bytes * pdata),
+    Forall (fun ad => wf_pdata (snd ad)) l -> load_pairings (save_pairings l) = Some l.
+Proof. exact pairings_roundtrip. Qed.
+
+(* a legacy record without "Connection" is loaded as IP and is otherwise unchanged *)
+Theorem pairing_legacy_connection :
+  forall d, plook k_conn d = None -> id_ok d -> plook k_ip d <> None -> plook k_port d <> None ->
+            load_pairing d = LpLoaded (d ++ [(k_conn, JStr a_IP)]).
+Proof. exact pairing_legacy. Qed.
+
+(* non-vacuity: a database with two linked services, a bool with a value, a write-only integer
+   with table ranges, a unicode string with an empty description, a float with fractional
+   ranges; it is well-formed, round-trips on the listed fields, and the untouched description
+   shows that [forget_acc] is needed *)
+Example c20_entity_nonvacuous :
+  forallb (wf_accb ex_norm ex_tbl) ex_db = true /\
+  rmap (map forget_acc) (accs_from ex_norm ex_tbl (accs_to ex_db)) = Ok (map forget_acc ex_db) /\
+  ex_db <> [] /\ accs_from ex_norm ex_tbl (accs_to ex_db) <> Ok ex_db.
+Proof. exact (conj ex_db_wf ex_db_roundtrip). Qed.
+
+Example c20_pairing_nonvacuous :
+  Forall (fun ad => wf_pdata (snd ad)) ex_pairings /\ length ex_pairings = 3.
+Proof. exact (conj ex_pairings_wf eq_refl). Qed.
+
 Print Assumptions save_crash_safe.
 Print Assumptions save_crash_safe_plain.
 Print Assumptions save_crash_safe_fresh.
@@ -144,3 +212,11 @@ Print Assumptions save_nofsync_refuted.
 Print Assumptions cache_prefix_safe.
 Print Assumptions cache_save_crash_total.
 Print Assumptions codec_hypotheses_satisfiable.
+Print Assumptions save_complete.
+Print Assumptions entity_roundtrip.
+Print Assumptions entity_roundtrip_checked.
+Print Assumptions characteristic_roundtrip.
+Print Assumptions cache_entry_roundtrip.
+Print Assumptions broadcast_key_roundtrip.
+Print Assumptions pairing_roundtrip.
+Print Assumptions pairing_legacy_connection.
